@@ -204,7 +204,11 @@ class G:
             n = self.pick(sorted(cands))
             return M.Var(n, INT)
         if r < 95:
-            return self.expr(INT, 1)
+            e = self.expr(INT, 1)
+            # a *literal* index is checked statically (C13): keep it in range;
+            # any other expression is a dynamic index (out of range = discarded)
+            if not isinstance(e, M.Lit):
+                return e
         return int_lit(self.draw, 0, size - 1)
 
     # -- expressions --------------------------------------------------------
